@@ -728,6 +728,43 @@ fn deliver_and_check(
         let _ = hooks::release_gate();
         if window_realised.load(Ordering::SeqCst) {
             r.c01.count("order.ChildInCommitWindow.realised");
+            // Before anything else is delivered (the flush below re-delivers a block, and any
+            // arrival makes the chain service look at its orphan pool again): once P's verdict is
+            // out, its child must be on its way through verification, not parked as an orphan.
+            if let Some(w) = window_at.filter(|w| w + 2 == order.len()) {
+                let (p, c) = (order[w], order[w + 1]);
+                let t0 = Instant::now();
+                let mut parked_polls = 0;
+                while t0.elapsed() < Duration::from_secs(5) {
+                    let (p_done, c_done) = {
+                        let g = callbacks.lock().unwrap();
+                        (g.iter().any(|cb| cb.hash == p), g.iter().any(|cb| cb.hash == c))
+                    };
+                    if c_done {
+                        break;
+                    }
+                    if p_done && node.chain().orphan_blocks_len() > 0 {
+                        parked_polls += 1;
+                        if parked_polls >= 60 {
+                            break;
+                        }
+                    } else {
+                        parked_polls = 0;
+                    }
+                    std::thread::sleep(Duration::from_millis(5));
+                }
+                r.c01.eval();
+                if parked_polls >= 60 {
+                    r.c01.violation(
+                        "orphans.child_parked_although_parent_attached@child_arrived_between_commit_and_publication_of_parent",
+                        format!(
+                            "block {} arrived while its parent {} was committed but not yet published; the parent's verdict is out, nothing else has been delivered, and the child sits in the orphan pool ({} orphan(s)) instead of being verified (observed over 60 polls / 300 ms)",
+                            hx(&c), hx(&p), node.chain().orphan_blocks_len()
+                        ),
+                        json!({"order_kind": "ChildInCommitWindow", "parent": hx(&p), "child": hx(&c), "tip": hx(&h(&node.tip_hash()))}),
+                    );
+                }
+            }
         }
         // logical quiescence: FIFO flush through chain-service / preload / verify threads by
         // re-delivering an already delivered valid block (a legal duplicate) until the number
